@@ -69,6 +69,13 @@ type hWithIface struct {
 	X *int `cbor:"10,keyasint" json:"x"`
 }
 
+// the outer struct re-declares a key its embedded struct also declares (as an optional field): the outer
+// field consumes the key, the embedded one must stay as it was ("populating ... reproduces the value")
+type hShadow struct {
+	HInner
+	B *string `cbor:"2,keyasint,omitempty" json:"b,omitempty"`
+}
+
 // hThorough: the thorough tier widens the stated bounds (govc exports VERIF_TIER to the test run).
 func hThorough() bool { return os.Getenv("VERIF_TIER") == "thorough" }
 
@@ -126,6 +133,9 @@ func hValues() []interface{} {
 	ws2 := &hWithScalar{HEpoch: 0, HTags: HTags{"a", "b"}}
 	ws2.A = pi(2)
 	out = append(out, ws2)
+	sh := &hShadow{B: ps("outer")}
+	sh.A = pi(4)
+	out = append(out, sh)
 	out = append(out, &hWithIface{HIface: HInner2{D: pu(9)}, X: pi(3)})
 	out = append(out, &hWithIface{HIface: &HInner2{D: pu(0), C: pb([]byte{})}, X: pi(3)})
 	return out
